@@ -41,8 +41,10 @@ structure Core (s : State) : Prop where
       s.minDivP ≤ sel s.stmDiv s.stmSegment
 
 /-- a segment that the CPU regards as holding a plain `Gain` (mode GAIN, one pattern) has the
-slowest sampling division — this is what makes `change_gain_segment` (which does not call
-`validate_silencer_settings`) harmless -/
+slowest sampling division.  Before the repair of `change_gain_segment` (which used not to call
+`validate_silencer_settings`) this clause was what made a `GainSwapSegment` harmless; since the repair
+`Core` alone is inductive (`run_core`) and this clause is kept only as an additional true fact about
+histories of complete frames. -/
 def GainOkAt (s : State) (seg : Nat) : Prop :=
   sel s.stmMode seg = STM_MODE_GAIN → sel s.stmCycle seg = 1 → sel s.stmDiv seg = 0xFFFF
 
